@@ -119,10 +119,13 @@ pub fn gen_c11(rng: &mut Rng, tier: &str) -> MultiCase {
 }
 
 fn merge_stats(st: &mut RunStats, case: &PipeCase, out: &WriteOutcome) {
-    st.steps += out.steps;
-    st.nonzero_decisions += out.nonzero_decisions;
-    st.trace_hash = crate::rng::mix(st.trace_hash, out.trace_hash);
+    if case.mt_threads == 0 {
+        st.steps += out.steps;
+        st.nonzero_decisions += out.nonzero_decisions;
+        st.trace_hash = crate::rng::mix(st.trace_hash, out.trace_hash);
+    }
     st.sink_ops += out.ops.len() as u64;
+    st.outcome_hash = crate::rng::mix(st.outcome_hash, hash_bytes(&out.image));
     let mut f = |k: &str, v: u64| {
         if v > 0 {
             *st.faults.entry(k.to_string()).or_insert(0) += v;
